@@ -82,7 +82,7 @@ CHECKS["C15"] = {
     "rule": "case = (file, bad chunk, cyclic read sizes) x every bit of the chunk's stored bytes. Non-trivial = the flipped chunk still decodes under zstd AND some read size is smaller than the chunk's uncompressed size (the situation in which unverified data could be handed out piecemeal); distinct = (case, byte, bit) by construction.",
     "assumptions": ["any bit flip changes the chunk digest (no collisions)"],
     "runs": [
-        {"bin": "asan/C15", "cases": P(120, 1500), "procs": P(8, 16), "size": 70, "shrink_budget": 60},
+        {"bin": "asan/C15", "cases": P(120, 600), "procs": P(8, 16), "size": 70, "shrink_budget": 60},
     ],
 }
 
